@@ -91,10 +91,16 @@ def replay_one(tx):
     okind = kind_of(tx, act)
     try:
         # 1. history prefix
-        for a in tx["hist"]:
+        for k_, a in enumerate(tx["hist"]):
             out = sess.apply(a)
             res["calls"] += 1
             if out.ok != (a["out"] == "ok"):
+                # reported here as well: the transition this call belongs to may have been skipped by the stride
+                txh = {"hist": tx["hist"][:k_], "act": a, "from": tx["from"], "to": tx["from"]}
+                res["findings"].append(finding(
+                    "outcome", txh, kind_of(tx, a),
+                    {"expected": a["out"], "observed": "ok" if out.ok else "raised %s: %s" % (out.cls, str(out.exc)[:200]),
+                     "in_history_at": k_ + 1}, conc=conc))
                 res["truncated"] = 1
                 return res
         # every long-lived handle looks at its containers once before the call (the simulated walks do this after
